@@ -281,7 +281,8 @@ def run(ctx):
     rp = vlib.compile_harness(os.path.join(vlib.VERIF, "harness/async_replay.cpp"), "async_replay",
                               sanitize=not ctx.quick)
     fams = families(ctx.quick)
-    ctx.extra["programs"] = {k: len(v) for k, v in fams.items()}
+    ctx.extra["programs"] = sum(len(v) for v in fams.values())
+    ctx.extra["program_families"] = {k: len(v) for k, v in fams.items()}
     for tag, ps in fams.items():
         if len(ctx.violations) >= 3:
             break
